@@ -354,7 +354,10 @@ def panic_sig(p):
     msg = re.sub(r"0x[0-9a-fA-F_]+|\d+", "N", msg)
     msg = re.sub(r"\(.*", "(..)", msg)
     msg = msg[:80]
-    return f"{os.path.basename(p.get('file', '?'))}:{msg}"
+    f = p.get("file", "?")
+    m = re.search(r"/registry/src/[^/]+/([^/]+)/", f)
+    crate = (re.sub(r"-\d[\d.]*$", "", m.group(1)) + "/") if m else ""      # a panic inside a dependency names the crate
+    return f"{crate}{os.path.basename(f)}:{msg}"
 
 
 def outcomes(obs):
